@@ -9,7 +9,9 @@ EXTENDS Naturals, Sequences, FiniteSets
 Lower == {"a","b","c","d","e","f","g","h","i","j","k","l","m","n","o","p","q","r","s","t","u","v","w","x","y","z"}
 Upper == {"A","B","C","D","E","F","G","H","I","J","K","L","M","N","O","P","Q","R","S","T","U","V","W","X","Y","Z"}
 Digits == {"0","1","2","3","4","5","6","7","8","9"}
-WordChars == Lower \cup Upper \cup Digits \cup {"_"}
+\* letters outside ASCII are word characters as well (identifiers may contain them); the ones the drivers use
+OtherLetters == {"ξ", "η", "é", "Ü", "д", "о", "л", "г", "т", "а"}
+WordChars == Lower \cup Upper \cup Digits \cup {"_"} \cup OtherLetters
 Chars(s) == [k \in 1..Len(s) |-> s[k]]
 PosWordSeqs == {<<"c","e","n","t","e","r">>, <<"l","e","f","t">>, <<"r","i","g","h","t">>,
                 <<"i","n","n","e","r">>, <<"o","u","t","e","r">>}
